@@ -613,7 +613,7 @@ def main(argv):
     refs = build_references(lib, scratch)
     unusable, hs_viol = ref_problems(lib, refs)
     ref_s = timer.s()
-    if len(unusable) > len(lib) * 0.4:
+    if len([u for u in unusable if not u.startswith("rnd-")]) > 6 or len(unusable) > len(lib) * 0.5:
         raise K.HarnessError(f"too many unusable descriptions: {unusable}")
     usable = [d for d in lib if d["id"] not in unusable and not d.get("twin_of")
               and not any(h["desc"]["id"] == d["id"] for h in hs_viol)]
